@@ -50,6 +50,10 @@ func runC14(p *core.Program, r *core.Report) {
 	c14R5(p, r, fs)
 	c14R6(p, r)
 	c14R7(p, r)
+	// R8: "the answer is the same on every call": nothing reached by the resolver keeps state on the loaded package
+	r.Floor("R8", 1)
+	universeWriteScan(p, r, "R8", nil)
+	c14R9(p, r)
 }
 
 func c14R1(p *core.Program, r *core.Report, fs []*core.Func) {
@@ -1245,5 +1249,74 @@ func c14R7(p *core.Program, r *core.Report) {
 	}
 	if nd == 0 || nc == 0 {
 		r.Anchor(rule, "declaration and call-site stores into the signature table in newPkg")
+	}
+}
+
+// c14R9: the visited marks of a function type are indexed by result position; the list of marks must have one slot
+// per result, i.e. per name of every result field (`(w, h int)` is one field and two results) - not one per field.
+func c14R9(p *core.Program, r *core.Report) {
+	const rule = "R9"
+	r.Floor(rule, 1)
+	f := p.FuncByName("pkg/types", "visits.visited")
+	if f == nil {
+		r.Anchor(rule, "pkg/types.visits.visited")
+		return
+	}
+	info := f.Info()
+	found := false
+	for _, c := range core.Calls(f.Body, true) {
+		if core.CalleeName(info, c) != "builtin.make" || len(c.Args) < 2 {
+			continue
+		}
+		sl, ok := info.TypeOf(c.Args[0]).Underlying().(*types.Slice)
+		if !ok || !isBasicKind(sl.Elem(), types.Bool) {
+			continue
+		}
+		found = true
+		size := ast.Unparen(c.Args[1])
+		good, how := false, ""
+		if nc, ok := size.(*ast.CallExpr); ok && core.CalleeName(info, nc) == "(*go/ast.FieldList).NumFields" {
+			good, how = true, "FieldList.NumFields() counts the names of every field"
+		} else if v := core.VarOf(info, size); v != nil {
+			// a counter: starts at 0 and grows by len(field.Names) (or 1 for an unnamed field) per result field
+			perName, other := false, false
+			for _, d := range core.DefsOf(info, f.Body, v) {
+				switch d.Kind {
+				case "define", "var", "assign":
+					if k, isC := core.ConstInt(info, d.Rhs); d.Rhs == nil || !isC || k != 0 {
+						other = true
+					}
+				case "opassign":
+					as := d.Stmt.(*ast.AssignStmt)
+					if as.Tok != token.ADD_ASSIGN {
+						other = true
+						break
+					}
+					rhs := ast.Unparen(d.Rhs)
+					if k, isC := core.ConstInt(info, rhs); isC && k == 1 {
+						break
+					}
+					if lc, ok := rhs.(*ast.CallExpr); ok && core.CalleeName(info, lc) == "builtin.len" && len(lc.Args) == 1 {
+						if fld := core.FieldOf(info, lc.Args[0]); fld != nil && fld.Name() == "Names" {
+							perName = true
+							break
+						}
+					}
+					other = true
+				case "incdec":
+					if d.Stmt.(*ast.IncDecStmt).Tok != token.INC {
+						other = true
+					}
+				default:
+					other = true
+				}
+			}
+			good, how = perName && !other, "counter that adds len(field.Names) (or 1) per result field"
+		}
+		r.Check(good, rule, f, "the list of marks has one slot per result", c.Pos(), how,
+			"the list of visited marks is sized by `"+core.ExprStr(size)+"`, which is not the number of results (names of every result field): for a result list that groups names - `(w, h int)` - a result position lies outside the list and ResultsOf panics with index out of range")
+	}
+	if !found {
+		r.Anchor(rule, "make([]bool, n) of the visited marks")
 	}
 }
